@@ -6,8 +6,10 @@ import (
 	"encoding/json"
 	"fmt"
 	"testing"
+	"time"
 
 	"github.com/irai/packet"
+	"github.com/irai/packet/fastlog"
 	"verifharness/vh"
 )
 
@@ -22,7 +24,10 @@ import (
 // Must run in a non-race build with logging at error level (vh.Quiet).
 func runAllocs(vecs []*vector, tab *table, seed int64, cfg int, ids map[int]bool, out *bufio.Writer) map[string]interface{} {
 	u := &vh.Universe{Cfg: vh.Configs[cfg%len(vh.Configs)]}
-	s, _, err := vh.NewSession(u, 1, 2, 4)
+	// a short (legal) ProbeDeadline: the "quiet" cases are frames of a tracked, online host that was silent
+	// for longer than ProbeDeadline and shorter than OfflineDeadline
+	s, err := packet.Config{Conn: vh.NewRecConn(), NICInfo: u.NICInfo(), ProbeDeadline: 50 * time.Millisecond,
+		OfflineDeadline: time.Minute, PurgeDeadline: time.Hour}.NewSession("")
 	if err != nil {
 		return map[string]interface{}{"infra": []string{"session: " + err.Error()}}
 	}
@@ -68,16 +73,35 @@ func runAllocs(vecs []*vector, tab *table, seed int64, cfg int, ids map[int]bool
 			cnt["alloc_not_required"]++
 			continue
 		}
+		// logger level of the case: "default" = Info, the level a default configured program runs with
+		if v.X.Log == "default" {
+			packet.Logger.SetLevel(fastlog.LevelInfo)
+		} else {
+			packet.Logger.SetLevel(fastlog.LevelError)
+		}
 		if v.Status == "tracked" && (fr.Host == nil || !fr.Host.Online) {
 			// the precondition of the case (host tracked and online) could not be established
 			emit(rec{T: "drift", ID: v.ID, What: "alloc-precondition", View: "Parse", Exp: "host tracked and online", Got: fmt.Sprint(fr.Host != nil)})
 			continue
 		}
-		n := testing.AllocsPerRun(200, func() { fr, perr = s.Parse(buf) })
+		var n float64
+		if v.X.Quiet == "quiet" {
+			host := fr.Host
+			n = testing.AllocsPerRun(200, func() {
+				past := time.Now().Add(-2 * time.Second) // silent for 2 s: > ProbeDeadline (50 ms), < OfflineDeadline (1 m)
+				host.LastSeen, host.MACEntry.LastSeen = past, past
+				fr, perr = s.Parse(buf)
+			})
+			cnt["alloc_measured_quiet"]++
+		} else {
+			n = testing.AllocsPerRun(200, func() { fr, perr = s.Parse(buf) })
+		}
+		packet.Logger.SetLevel(fastlog.LevelError)
 		cnt["alloc_measured"]++
+		cnt["alloc_measured_log_"+v.X.Log]++
 		if n != 0 {
 			emit(rec{T: "mm", ID: v.ID, Prop: "C16", What: "allocs", View: "Parse", G: v.Status, Exp: "0",
-				Got: fmt.Sprintf("%.0f allocations per Parse (PayloadID %d)", n, int(fr.PayloadID)), Hex: hex.EncodeToString(data)})
+				Got: fmt.Sprintf("%.0f allocations per Parse (PayloadID %d, quiet=%s, logger=%s)", n, int(fr.PayloadID), v.X.Quiet, v.X.Log), Hex: hex.EncodeToString(data)})
 		}
 		if cnt["alloc_measured"]%40 == 1 {
 			emit(rec{T: "sample", ID: v.ID, Hex: hex.EncodeToString(data), Got: fmt.Sprintf("status=%s id=%d allocs=%.0f", v.Status, int(fr.PayloadID), n)})
